@@ -24,6 +24,7 @@ import (
 	"github.com/thushan/olla/internal/adapter/stats"
 	"github.com/thushan/olla/internal/core/domain"
 	"github.com/thushan/olla/internal/core/ports"
+	"github.com/thushan/olla/internal/logger"
 	"github.com/thushan/olla/internal/verif/h/lib/explore"
 	"github.com/thushan/olla/internal/verif/h/lib/gate"
 	"github.com/thushan/olla/internal/verif/h/lib/hutil"
@@ -436,6 +437,88 @@ func p2(w *world, learnt map[string]vec, n int, bound int) {
 	}
 }
 
+// p3cold: the first updates an endpoint ever receives arrive together (cold start, a newly discovered endpoint, the
+// first traffic after the collector's cleanup dropped its entry). Ops per thread: +1 / -1 on the gauge, or "R"
+// (RecordRequest success). At quiescence the gauge equals what the linearisations allow and the endpoint's request
+// total equals the number of RecordRequest calls (and the global total).
+func p3cold(lg logger.StyledLogger) {
+	type thr []string
+	for _, ops := range [][]thr{{{"+1"}, {"+1"}}, {{"+1"}, {"+1"}, {"+1"}}, {{"+1", "-1"}, {"+1"}}, {{"R"}, {"R"}}, {{"R"}, {"+1"}, {"R"}}, {{"+1", "R", "-1"}, {"+1", "R", "-1"}}} {
+		ops := ops
+		var gauge, epTotal, globalTotal int64
+		var nReq int
+		sc := explore.Scenario{
+			Name: fmt.Sprintf("cold collector %v", ops),
+			Body: func() {
+				col := stats.NewCollector(lg)
+				ep := hutil.Endpoint("A", 9000, domain.StatusHealthy, 1)
+				for _, seq := range ops {
+					seq := seq
+					vsched.Go(func() {
+						for _, o := range seq {
+							switch o {
+							case "+1":
+								col.RecordConnection(ep, 1)
+							case "-1":
+								col.RecordConnection(ep, -1)
+							default:
+								col.RecordRequest(ep, "success", time.Millisecond, 10)
+							}
+						}
+					})
+				}
+				vsched.WaitOthers()
+				gauge = col.GetConnectionStats()[ep.URLString]
+				epTotal = col.GetEndpointStats()[ep.URLString].TotalRequests
+				globalTotal = col.GetProxyStats().TotalRequests
+			},
+			Judge: func(out vsched.Outcome) explore.Verdict {
+				want := int64(0)
+				nReq = 0
+				for _, seq := range ops {
+					for _, o := range seq {
+						switch o {
+						case "+1":
+							want++
+						case "-1":
+							want-- // every -1 in these scenarios follows a +1 of the same thread: no clamping in any linearisation
+						default:
+							nReq++
+						}
+					}
+				}
+				ok := gauge == want && epTotal == int64(nReq) && globalTotal == int64(nReq)
+				v := explore.Verdict{OK: ok, Fingerprint: fmt.Sprint(gauge, epTotal, globalTotal), Collision: len(out.Decisions) > 0}
+				if !ok {
+					v.Clause = "first-updates-of-an-endpoint-lost"
+					v.Witness = map[string]any{"phase": "P3"}
+					v.Detail = fmt.Sprintf("fresh collector, threads %v on one endpoint: gauge %d (every linearisation gives %d), endpoint total %d, global total %d, RecordRequest calls %d", ops, gauge, want, epTotal, globalTotal, nReq)
+				}
+				return v
+			},
+		}
+		ex := explore.New(0, 1, report.Deadline)
+		b := 3
+		if report.Thorough() {
+			b = -1
+		}
+		st := ex.Explore(sc, b)
+		if st.Broken != "" {
+			res.Break("%s", st.Broken)
+			return
+		}
+		res.Add("traces_validated_against_impl", int64(st.Executions))
+		res.Add("transitions", int64(st.Steps))
+		for fp := range st.Outcomes {
+			res.SetAdd("states", sc.Name+"|"+fp)
+		}
+		for _, f := range st.Failures {
+			res.Violate(f.Clause, f.Witness, f.Detail+fmt.Sprintf("\nschedule %v", f.Schedule), map[string]any{"engine": "sched", "scenario": sc.Name, "schedule": f.Schedule})
+		}
+		res.Sample(map[string]any{"phase": "P3", "scenario": sc.Name, "schedules": st.Samples})
+	}
+}
+
 var workItem int
 
 // ---------------------------------------------------------------- P3 SCHED on the gauge
@@ -445,6 +528,7 @@ func p3() {
 		return
 	}
 	lg := hutil.QuietLogger()
+	p3cold(lg)
 	for _, ops := range [][][]int{{{+1, -1}, {-1}, {+1}}, {{-1}, {-1}, {+1}}, {{+1}, {-1, -1}, {+1, -1}}} {
 		ops := ops
 		var final int64
